@@ -183,5 +183,8 @@ def gen_system(tier, seed):
         if flows:
             ex = r.choice([flows[0][0], flows[0][1], flows[-1][2]])
             lines.append(f"cf {ex} 0")
+        # the checks are queries: the balance computed afterwards is the one computed before
+        lines.append("balance")
+        lines.append("cmb - 0")
         stats["cases"] += 1
     return [ln.rstrip() for ln in lines], stats
